@@ -17,7 +17,12 @@
 (* A base string is a sequence of tokens.  One TLC state per case: the     *)
 (* string itself, every truncation (character offset), every token        *)
 (* dropped, every bracket / separator duplicated, every bracket reversed   *)
-(* (bracket imbalance).  Oracle: spec/Trace_Malformed.tla.                 *)
+(* (bracket imbalance); and, for every type with several components       *)
+(* (CompositeType, MapType, TupleType, UserType, wrappers of one; map<>,   *)
+(* tuple<>), a MALFORMED COMPONENT IN EVERY POSITION while the others are  *)
+(* complete: a class that lacks its parameters, has an empty parameter     *)
+(* list, too few parameters, nothing at all, a named parameter where none  *)
+(* belongs.  Oracle: spec/Trace_Malformed.tla.                             *)
 (***************************************************************************)
 EXTENDS Integers, Sequences, TLC, Json
 
@@ -90,9 +95,40 @@ Punct == {LP, RP, CM, CL, LT, GT, CS}
 St(t, g, b, mk, i, s, v) == [t |-> t, g |-> g, b |-> b, mk |-> mk, i |-> i, s |-> s, v |-> v, toks |-> <<>>]
 CompIdx == {-1, -2, 1, 7, 65536, 2147483647}
 
+\* ------------------------------------------------------------------ a malformed component in every position
+\* components are token sequences; a wrapper joins n of them
+RECURSIVE JoinWith(_, _)
+JoinWith(cs, sep) == IF Len(cs) = 0 THEN <<>> ELSE IF Len(cs) = 1 THEN cs[1] ELSE cs[1] \o <<sep>> \o JoinWith(Tail(cs), sep)
+GoodM == << <<P("UTF8Type")>>, <<P("Int32Type")>>, <<P("ReversedType"), LP, P("Int32Type"), RP>>, <<P("ListType"), LP, P("UTF8Type"), RP>> >>
+BadM == << <<P("ReversedType")>>, <<P("ReversedType"), LP, RP>>, <<P("ListType")>>, <<P("ListType"), LP, RP>>, <<P("SetType"), LP, RP>>,
+           <<P("MapType"), LP, P("UTF8Type"), RP>>, <<P("MapType")>>, <<>>, <<P("ColumnToCollectionType"), LP, RP>>,
+           <<P("ColumnToCollectionType"), LP, "zz", RP>>, <<P("CompositeType")>>, <<P("CompositeType"), LP, RP>>,
+           <<"6d", CL, P("Int32Type")>>, <<P("ReversedType"), LP, P("ListType"), RP>>, <<P("TupleType"), LP, RP>> >>
+\* wrappers: [name, arity, prefix tokens inside the parentheses]
+WrapM == << [n |-> P("CompositeType"), k |-> 2, pre |-> <<>>], [n |-> P("CompositeType"), k |-> 3, pre |-> <<>>],
+            [n |-> P("MapType"), k |-> 2, pre |-> <<>>], [n |-> P("TupleType"), k |-> 2, pre |-> <<>>],
+            [n |-> P("UserType"), k |-> 2, pre |-> <<"ks", CM, "6e616d65", CM>>],
+            [n |-> P("ReversedType"), k |-> 1, pre |-> <<>>], [n |-> P("ListType"), k |-> 1, pre |-> <<>>],
+            [n |-> P("FrozenType"), k |-> 1, pre |-> <<>>] >>
+\* the component at position i is bad b, the others are good ones (rotating with the fill f)
+CompsM(w, i, b, f) == [j \in 1 .. w.k |-> IF j = i THEN BadM[b] ELSE GoodM[((j + f) % Len(GoodM)) + 1]]
+NamedM(w, cs) == IF w.n = P("UserType") THEN [j \in 1 .. Len(cs) |-> <<"66", CL>> \o cs[j]] ELSE cs
+WrapToksM(w, cs) == <<w.n, LP>> \o w.pre \o JoinWith(NamedM(w, cs), CM) \o <<RP>>
+GoodC == << <<"int">>, <<"text">>, <<"frozen", LT, "list", LT, "int", GT, GT>> >>
+BadC == << <<"list", LT>>, <<"list", LT, GT>>, <<"list">>, <<"map", LT, "int", GT>>, <<"frozen", LT, GT>>, <<"tuple", LT, GT>>, <<>>,
+           <<"map", LT>>, <<"frozen">>, <<LT>>, <<GT>> >>
+WrapC == << [n |-> "map", k |-> 2], [n |-> "tuple", k |-> 2], [n |-> "tuple", k |-> 3], [n |-> "frozen", k |-> 1], [n |-> "list", k |-> 1], [n |-> "set", k |-> 1] >>
+CompsC(w, i, b, f) == [j \in 1 .. w.k |-> IF j = i THEN BadC[b] ELSE GoodC[((j + f) % Len(GoodC)) + 1]]
+WrapToksC(w, cs) == <<w.n, LT>> \o JoinWith(cs, CS) \o <<GT>>
+Fills == IF Tier = "thorough" THEN {0, 1, 2} ELSE {0, 1}
+
 \* i = 1: the name is the aggregate's final function, i = 2: its state function; "f1" exists
 FuncNames == {"", "f1", "nosuchfn"}
 TInit == \/ \E fn \in FuncNames, i \in {1, 2} : p = St("case", "aggregate", 0, "value", i, fn, 0)
+         \/ \E w \in 1 .. Len(WrapM), b \in 1 .. Len(BadM), f \in Fills : \E i \in 1 .. WrapM[w].k :
+              p = St("case", "marshal", w, "bad-component", i, Join(WrapToksM(WrapM[w], CompsM(WrapM[w], i, b, f))), b)
+         \/ \E w \in 1 .. Len(WrapC), b \in 1 .. Len(BadC), f \in Fills : \E i \in 1 .. WrapC[w].k :
+              p = St("case", "cql", w, "bad-component", i, Join(WrapToksC(WrapC[w], CompsC(WrapC[w], i, b, f))), b)
          \/ \E g \in {"marshal", "cql"} : \E b \in 1 .. Len(Bases(g)) : p = [St("base", g, b, "", 0, Join(Bases(g)[b]), 0) EXCEPT !.toks = Bases(g)[b]]
          \/ \E v \in CompIdx : p = St("case", "compidx", 0, "value", 0, "", v)
 TNext ==
